@@ -296,8 +296,16 @@ func CheckDefault(pc *PathCtx) {
 	// without default:update a non-nil *pointer* source replaces FUNC's result by a fresh conversion
 	// (the statement: "with default:update a non-nil source is applied on top of FUNC's result instead
 	// of replacing it"); ignored fields are then left unconstrained.
-	_ = tgtPtr
 	strict := !srcPtr || u.DefaultUpdate
+	// update:ignoreZeroValueField is read as applying wherever the method updates an existing *instance*:
+	// update ARG methods (C10) and default:update with a pointer on either side (pinned by scenario
+	// default_on_source_struct_target_pointer). For a plain struct->struct pair the statement is silent:
+	// zero-valued source fields may be skipped or assigned.
+	if !srcPtr && !tgtPtr {
+		c := *u
+		c.SkipBasic, c.SkipStruct, c.SkipNillable = false, false, false
+		u = &c
+	}
 	o.updateFields(src.(engine.Struct), S, pre, got.(engine.Struct), T, u, strict, "result")
 	pc.ProveLeaves("default", o)
 }
